@@ -58,7 +58,23 @@ Two observations of this round on the unchanged laspy: DimensionInfo kept the Ex
 (repaired in 6ccc284; the caller writing into its params object in place, or re-using it in place for the next addition, is now
 judged like every other caller action).  A hand-made laspy.VLR("LASF_Spec", 4, ...) the caller appends is NOT an extra-bytes VLR
 of the header: C08 wants every record the header does not own kept verbatim (C08_sync_keeps_raw), so such lists are outside C13
-and are not generated (see ASSUMPTIONS)."""
+and are not generated (see ASSUMPTIONS).
+Round 6 — the hypothesis on names is now "the FIELD NAMES OF THE RECORD are pairwise different" (Model: rec_names): an extra dimension
+may be called like a SUB FIELD of the current format (return_number, synthetic, withheld, overlap, scanner_channel ...: dimensions of the
+PointFormat that are no fields of the packed record), like a sub field or a field of another format, like an alias or a coordinate.
+Such names are drawn in the random stream (12% of the added dimensions; conversions then go to formats whose record has no field of
+that name) and in a systematic family: every standard dimension name that the record of the format does not have x every format,
+through add (next to ordinary dimensions, scaled or not), assignment of the extra dimension THROUGH THE RECORD'S ARRAY (las[name] names
+the standard dimension), assignment of the standard sub field through las[name] (op assign_sub: the extra dimension keeps its bytes,
+the composed field gets the bits), round trip, removal (single / list), re-addition, conversion, a refused removal of the name once it
+is only the standard dimension's.  New observations in every snapshot: PointFormat.dimensions (names; the standard part must be that
+of a fresh PointFormat(id), the model's dim_names is compared), the standard dimensions of the record's and the header's format (name,
+bits), and for every extra dimension called like a standard dimension / alias: las[name] still gives the standard dimension.
+The reader's side of (I3), stated on the implementation: a 192-byte descriptor is read (ExtraBytesVlr.parse_record_data +
+type_of_extra_dims) as the SPECIFICATION says — data type 1..30 = element type and count, options bit 3 = scale relevant (else 1.0),
+bit 4 = offset relevant (else 0.0), each on its own, data type 0 = that many opaque bytes, texts up to the first NUL — for every
+documented type x {no flag, scale only, offset only, both, other option bits} and random descriptors (search: judge_descriptor;
+theorem C13_option_bits pins the translated getter guards to bits 3 and 4 for all 30 x 256 (type, options) pairs)."""
 import io
 import struct
 
@@ -68,11 +84,12 @@ from harness import common, lasio
 
 DRIVER = "c13"
 ASSUMPTIONS = [
-    "names an add introduces are new: pairwise different, not a current extra dimension, not a standard dimension name of the format "
-    "(hypothesis ops_okb of the theorems: sub-field names of the CURRENT format stay excluded); names of standard dimensions of other "
-    "formats and the aliases laspy resolves before looking at the record (x, y, z, the old laspy names) are generated in systematic "
-    "families (values then assigned through the record's array: las['x'] names the coordinate); the random stream avoids them, and the "
-    "name 'ExtraBytes'",
+    "names an add introduces are new: pairwise different, not a current extra dimension, not a FIELD OF THE RECORD of the format "
+    "(hypothesis ops_okb of the theorems, round 6: the field names of the record are pairwise different — numpy refuses a duplicate "
+    "field after the header was changed); names of sub fields of the current format, of standard dimensions of other formats and the "
+    "aliases laspy resolves before looking at the record (x, y, z, the old laspy names) are names like any other (values of the extra "
+    "dimension are then assigned through the record's array: las['x'] / las['synthetic'] name the standard dimension); a conversion "
+    "goes to a format whose record has no field called like a current extra dimension; the random stream avoids the name 'ExtraBytes'",
     "names and descriptions are byte strings of 1..32 / 0..32 bytes without NUL (the generator uses ASCII and some multi-byte UTF-8)",
     "that a LAS file carries the point size, the VLR payloads and the point bytes verbatim is C01/C07/C08; the round trip of this model "
     "starts from (format id, point size, VLR list, record bytes)",
@@ -118,6 +135,10 @@ OLD_NAMES = {"flag_byte", "return_num", "num_returns", "scan_dir_flag", "edge_fl
              "byte_offset_to_waveform_data", "waveform_packet_size", "return_point_waveform_loc"}
 
 
+OLD_TO_NEW = {"flag_byte": "bit_fields", "return_num": "return_number", "num_returns": "number_of_returns", "scan_dir_flag": "scan_direction_flag",
+              "edge_flight_line": "edge_of_flight_line", "pt_src_id": "point_source_id", "wave_packet_desc_index": "wavepacket_index",
+              "byte_offset_to_waveform_data": "wavepacket_offset", "waveform_packet_size": "wavepacket_size",
+              "return_point_waveform_loc": "return_point_wave_location"}       # the old laspy names and what they stand for
 ALIASES = sorted(OLD_NAMES | {"x", "y", "z"})     # names laspy resolves to a standard dimension before it looks at the record
 
 
@@ -135,6 +156,72 @@ def reserved_names():
             out |= {s.name for s in subs}
     out |= set(dims.DIMENSIONS_TO_TYPE)
     return out
+
+
+_TABLES = {}
+
+
+def name_tables():
+    """per point format: the field names of the record (numpy dtype), the sub fields as name -> (composed field, mask), the names of
+    the standard dimensions of PointFormat(id) in order"""
+    if not _TABLES:
+        import laspy
+        import laspy.point.dims as dims
+        _TABLES["rec"] = {f: list(laspy.PointFormat(f).dtype().names) for f in range(11)}
+        _TABLES["sub"] = {f: {s_.name: (comp, int(s_.mask)) for comp, subs in dims.COMPOSED_FIELDS[f].items() for s_ in subs} for f in range(11)}
+        _TABLES["dims"] = {f: [(d.name, int(d.num_bits)) for d in laspy.PointFormat(f).dimensions] for f in range(11)}
+        _TABLES["old"] = dict(OLD_TO_NEW)
+    return _TABLES
+
+
+def clash_pool(fmt):
+    """names an extra dimension may carry although laspy knows them: every standard dimension name of any format, composed or
+    unpacked, every alias and coordinate — minus the fields of THIS format's record"""
+    t = name_tables()
+    rec = set(t["rec"][fmt])
+    return sorted(n for n in (reserved_names() - {"ExtraBytes"}) if n not in rec)
+
+
+def convert_targets(shadow):
+    """the formats whose record has no field called like one of the extra dimensions"""
+    t = name_tables()
+    names = {bytes.fromhex(d["name"]).decode() for d in shadow}
+    return [g for g in range(11) if not (names & set(t["rec"][g]))]
+
+
+def resolves_elsewhere(fmt, name):
+    """las[name] does not name the extra dimension of that name: laspy resolves the name to a standard dimension first"""
+    return name in ALIASES or name in name_tables()["sub"][fmt]
+
+
+def name_class(fmt, name):
+    """what laspy knows the name as (None: nothing)"""
+    if name in name_tables()["sub"][fmt]:
+        return "sub field of the format"
+    if name in ("x", "y", "z"):
+        return "coordinate"
+    if name in ALIASES:
+        return "old laspy name"
+    if name in _TABLES.setdefault("known", reserved_names() - {"ExtraBytes"}):
+        return "standard dimension of another format"
+    return None
+
+
+def shift_of(mask):
+    return (mask & -mask).bit_length() - 1
+
+
+def standard_view(arr, fmt, name):
+    """the values of the standard dimension that `name` names when it is a sub field / an old laspy name, computed from the record's
+    fields and the masks (None: not such a name, or a coordinate)"""
+    t = name_tables()
+    name = t["old"].get(name, name)
+    if name in t["sub"][fmt]:
+        comp, mask = t["sub"][fmt][name]
+        return (arr[comp] & mask) >> shift_of(mask)
+    if name in t["rec"][fmt]:
+        return arr[name]
+    return None
 
 
 # ---------------------------------------------------------------------------------
@@ -287,9 +374,15 @@ def rand_values(rng, t, scaled, npts):
     return bytes(out)
 
 
+_STD_DTYPE = {}
+
+
 def std_dtype(fmt):
-    import laspy
-    return laspy.PointFormat(fmt).dtype()
+    """the record layout of the standard dimensions of a format (of a fresh PointFormat(fmt); a numpy dtype is immutable: kept)"""
+    if fmt not in _STD_DTYPE:
+        import laspy
+        _STD_DTYPE[fmt] = laspy.PointFormat(fmt).dtype()
+    return _STD_DTYPE[fmt]
 
 
 def rand_std(rng, fmt, npts):
@@ -642,7 +735,7 @@ def rand_sync_op(rng, shadow, reserved):
     return {"op": "add", "dims": [rand_dim(rng, used, reserved)], "single": rng.random() < 0.5}
 
 
-def gen_history(rng, reserved, fmt=None, steps=None, npts=None, plan=None, build=None, init=None, sibling=None, sib_ops=None):
+def gen_history(rng, reserved, fmt=None, steps=None, npts=None, plan=None, build=None, init=None, sibling=None, sib_ops=None, init_dims=None):
     """a history: how the LasData is built (header parameters, the extra dimensions its PointFormat carries from the start, the bytes
     of its points, VLRs and how they are installed, an optional sibling LasData built the same way), and up to 12 operations ending
     with a round trip.  `plan` (optional) is a list of forced first operations given as callables(shadow, current number of points) -> op."""
@@ -662,6 +755,8 @@ def gen_history(rng, reserved, fmt=None, steps=None, npts=None, plan=None, build
             d = rand_dim(rng, used, reserved)
             used.add(bytes.fromhex(d["name"]).decode())
             shadow.append(d)
+        if init_dims is not None:       # the PointFormat carries exactly these from the start
+            shadow = [dict(d) for d in init_dims]
     if sibling is None and rng.random() < (0.6 if build.startswith("default") else 0.15):
         sibling = rng.choice(["older", "younger"])
     sib = None
@@ -710,6 +805,10 @@ def gen_history(rng, reserved, fmt=None, steps=None, npts=None, plan=None, build
                 op = rand_set_points(rng, curfmt, shadow, cur, reserved, mismatch=rng.choice(MISMATCHES) if rng.random() < 0.2 else None)
             elif k0 < 0.17:
                 op = rand_convert(rng, curfmt, curver)
+                if op["fmt"] not in convert_targets(shadow):        # the target's record has a field called like an extra dimension
+                    op["fmt"] = rng.choice([g for g in convert_targets(shadow) if g != curfmt] or [curfmt])
+                    if op["version"] is not None and op["fmt"] not in lasio.COMPAT[op["version"]]:
+                        op["version"] = None
                 if op["fmt"] != curfmt and len(h["ops"]) < steps - 1:
                     h["ops"].append({"op": "assign_std", "size": std_dtype(curfmt).itemsize,
                                      "raw": hx(bytes(rng.choice(SAFE_STD) for _ in range(std_dtype(curfmt).itemsize * cur))), "safe": True})
@@ -730,12 +829,18 @@ def gen_history(rng, reserved, fmt=None, steps=None, npts=None, plan=None, build
             elif k < 0.36 or (not shadow and k < 0.7):
                 dims_ = []
                 for _ in range(rng.choice([1, 1, 1, 2, 3])):
-                    again = [r for r in retired if bytes.fromhex(r[0]).decode() not in used]
+                    again = [r for r in retired if bytes.fromhex(r[0]).decode() not in used and bytes.fromhex(r[0]).decode() not in name_tables()["rec"][curfmt]]
                     if again and rng.random() < 0.5:
                         # a name that was in use before (in this LasData or in the sibling) comes back, mostly with a type of the
                         # same layout (element count and width) and another kind
                         nm, t_old = rng.choice(again)
                         d = rand_dim(rng, used, reserved, t=twin_type(rng, t_old), name=bytes.fromhex(nm).decode())
+                    elif rng.random() < 0.12 and [n for n in clash_pool(curfmt) if n not in used]:
+                        # round 6: a name laspy knows — a sub field of this format (half of them), a standard dimension of another
+                        # format, an alias, a coordinate —, legal because the record of this format has no field of that name
+                        pool = [n for n in clash_pool(curfmt) if n not in used]
+                        subs_here = [n for n in pool if n in name_tables()["sub"][curfmt]]
+                        d = rand_dim(rng, used, reserved, name=rng.choice(subs_here if subs_here and rng.random() < 0.5 else pool))
                     else:
                         d = rand_dim(rng, used, reserved)
                     used.add(bytes.fromhex(d["name"]).decode())
@@ -755,6 +860,10 @@ def gen_history(rng, reserved, fmt=None, steps=None, npts=None, plan=None, build
                       "retain": rng.random() < 0.5}
             elif k < 0.71 and shadow:
                 op = assign_op(rng, rng.choice(shadow), cur)
+            elif k < 0.73 and [d for d in shadow if bytes.fromhex(d["name"]).decode() in name_tables()["sub"][curfmt]]:
+                # las[name] = values where an extra dimension is called like the sub field `name`: the STANDARD sub field is assigned
+                d = rng.choice([d for d in shadow if bytes.fromhex(d["name"]).decode() in name_tables()["sub"][curfmt]])
+                op = assign_sub_op(rng, curfmt, bytes.fromhex(d["name"]).decode(), cur)
             elif k < 0.76:
                 op = {"op": "assign_std", "size": std_dtype(curfmt).itemsize, "raw": hx(rand_std(rng, curfmt, cur))}
             elif k < 0.86:
@@ -763,7 +872,7 @@ def gen_history(rng, reserved, fmt=None, steps=None, npts=None, plan=None, build
                 good = [d["name"] for d in shadow]
                 bad_kind = rng.choice(["standard", "unknown", "duplicate", "empty"]) if good else rng.choice(["standard", "unknown", "empty"])
                 if bad_kind == "standard":
-                    bad = [hx(rng.choice(std_names).encode())]
+                    bad = [hx(rng.choice([n for n in std_names if n not in used]).encode())]     # (a sub field's name may be an extra dimension's)
                 elif bad_kind == "unknown":
                     bad = [hx(rand_text(rng, rand_len(rng), used, reserved).encode())]
                 elif bad_kind == "duplicate":
@@ -814,6 +923,14 @@ def gen_history(rng, reserved, fmt=None, steps=None, npts=None, plan=None, build
                 pass
     h["ops"].append({"op": "roundtrip", "via": rng.choice(["write", "writer"])})
     return h
+
+
+def assign_sub_op(rng, fmt, name, cur):
+    """las[name] = values for the standard sub field `name` (values over the whole width of the sub field)"""
+    comp, mask = name_tables()["sub"][fmt][name]
+    top = mask >> shift_of(mask)
+    return {"op": "assign_sub", "name": hx(name.encode()), "composed": comp, "mask": mask,
+            "vals": [rng.choice([0, top, rng.randrange(top + 1)]) for _ in range(cur)], "how": rng.choice(["item", "item", "attr"])}
 
 
 def assign_op(rng, d, cur):
@@ -1130,7 +1247,7 @@ def same_values(a, b):
     return (a.dtype == b.dtype and a.shape == b.shape and a.tobytes() == b.tobytes()) or np.array_equal(a, b)
 
 
-SNAP_KEYS = ("fmt", "extras", "names", "ftypes", "bytes", "vlrs", "hdr_vlrs", "itemsize", "pf_size", "hdr_pf_size", "npts", "same_format")
+SNAP_KEYS = ("fmt", "extras", "names", "ftypes", "bytes", "vlrs", "hdr_vlrs", "itemsize", "pf_size", "hdr_pf_size", "npts", "same_format", "dim_names", "std_dims")
 
 
 class WriterWitness:
@@ -1212,9 +1329,20 @@ def apply_op(las, op, env=None):
             else:                      # histories recorded by earlier rounds
                 sub = arr.dtype.fields[name][0]
                 vals = np.frombuffer(bytes.fromhex(op["raw"]), dtype=sub.base).reshape((len(arr),) + sub.shape)
-            dim = las.point_format.dimension_by_name(name)
-            if dim.is_scaled or name in ALIASES:
-                arr[name] = vals          # stored values; the scaled presentation is C11's subject (las["x"], las["return_num"] ... name standard dimensions)
+            dim = [d_ for d_ in las.point_format.extra_dimensions if d_.name == name][0]
+            if dim.is_scaled or resolves_elsewhere(las.point_format.id, name):
+                # stored values; the scaled presentation is C11's subject; las["x"], las["return_num"], las["synthetic"] ... name the
+                # standard dimension, the extra dimension of that name is reached through the record's array
+                arr[name] = vals
+            else:
+                las[name] = vals
+        elif k == "assign_sub":
+            name = bytes.fromhex(op["name"]).decode()
+            vals = np.array(op["vals"], dtype="u1")
+            if las.points.array.ndim == 0:
+                vals = vals[0]
+            if op.get("how") == "attr":
+                setattr(las, name, vals)
             else:
                 las[name] = vals
         elif k == "assign_std":
@@ -1486,7 +1614,21 @@ def snapshot(las):
                 None if d.offsets is None else tuple(lasio.f64bits(x) for x in d.offsets), d.description) for d in las.header.point_format.extra_dimensions]
     pextras = [(d.name, str(d.dtype), None if d.scales is None else tuple(lasio.f64bits(x) for x in d.scales),
                 None if d.offsets is None else tuple(lasio.f64bits(x) for x in d.offsets), d.description) for d in pf.extra_dimensions]
+    resolved = {}
+    for d in pf.extra_dimensions:
+        if d.name in ALIASES or d.name in name_tables()["sub"].get(pf.id, {}):
+            want = standard_view(arr, pf.id, d.name)
+            if want is not None:
+                try:
+                    got = np.atleast_1d(np.asarray(las[d.name]))
+                    want = np.atleast_1d(want)
+                    resolved[d.name] = bool(got.shape == want.shape and (got.tobytes() == want.tobytes() if got.dtype == want.dtype else np.array_equal(got, want)))
+                except Exception as ex:   # noqa: BLE001
+                    resolved[d.name] = common.exc_kind(ex)
     return {
+        "dim_names": [d.name for d in pf.dimensions],
+        "std_dims": [[(d.name, int(d.num_bits)) for d in f_.dimensions if d.is_standard] for f_ in (pf, las.header.point_format)],
+        "resolved": resolved,
         "fmt": pf.id, "extras": extras, "names": list(arr.dtype.names), "fields": fields, "ftypes": ftypes, "itemsize": arr.dtype.itemsize,
         "pf_size": pf.size, "hdr_pf_size": las.header.point_format.size, "same_format": hextras == pextras and las.header.point_format.id == pf.id,
         "bytes": bytes(np.ascontiguousarray(arr).tobytes()), "npts": len(arr),
@@ -1597,6 +1739,8 @@ def op_tok(op):
         return f"S!x{op['name']}!{op['size']}!x{op['raw']}"
     if k == "assign_std":
         return f"T!{op['size']}!x{op['raw']}"
+    if k == "assign_sub":        # the standard block with the bits of the sub field replaced (computed from the state before, not observed)
+        return f"T!{op['_size']}!x{op['_std_after']}"
     if k == "set_points":
         return "P!" + ("+".join(dim_tok(d) for d in op["dims"]) or "-") + f"!{op['size']}!x{op['raw']}"
     if k == "convert":       # returns a LasData; the source stays alive
@@ -1661,6 +1805,9 @@ def observe_converted(h, snaps):
         if op["op"] == "edit_vlrs":
             # the list the caller made (the payload of a foreign extra-bytes VLR is what laspy put there: an input here)
             op["_edit_list"] = after[2].get("edit_list", [])
+        if op["op"] == "assign_sub":
+            op["_size"] = std_dtype(before[1]["fmt"]).itemsize
+            op["_std_after"] = hx(sub_assigned_std(before[1], op))
     for op, (status, sn, _) in zip(h["ops"], snaps[1:]):
         if op["op"] == "convert":
             size = std_dtype(op["fmt"]).itemsize
@@ -1669,6 +1816,21 @@ def observe_converted(h, snaps):
                 op["_std_after"] = hx(b"".join(sn["bytes"][i * w:i * w + size] for i in range(sn["npts"])))
             else:
                 op["_std_after"] = hx(bytes(size * sn["npts"]))
+
+
+def sub_assigned_std(sn, op):
+    """the standard blocks of all points after las[sub field] = values: the bits of the mask in the composed field replaced"""
+    size = std_dtype(sn["fmt"]).itemsize
+    w = sn["itemsize"]
+    off = sn["fields"][op["composed"]][0]
+    out = bytearray()
+    sh = shift_of(op["mask"])
+    for i in range(sn["npts"]):
+        blk = bytearray(sn["bytes"][i * w:i * w + size])
+        if i < len(op["vals"]):
+            blk[off] = (blk[off] & ~op["mask"] & 0xFF) | ((op["vals"][i] << sh) & op["mask"])
+        out += blk
+    return bytes(out)
 
 
 def model_cmd(h):
@@ -1692,7 +1854,8 @@ def snap_tokens(status, sn, nstd):
     for d in sn["extras"]:
         n = d["name"].decode()
         fl.append(common.hexb(d["name"]) + ":" + (common.hexb(sn["fields"][n][2]) if n in sn["fields"] else "missing"))
-    return [status, "+".join(ex) or "-", common.hexb(sn["bytes"]), ",".join(fl) or "-", lasio.vlrs_tok(sn["vlrs"]), str(sn.get("hdr_count", "?"))]
+    return [status, "+".join(ex) or "-", common.hexb(sn["bytes"]), ",".join(fl) or "-", lasio.vlrs_tok(sn["vlrs"]), str(sn.get("hdr_count", "?")),
+            ",".join(common.hexb(n.encode()) for n in sn.get("dim_names", []))]
 
 
 def op_label(op):
@@ -1703,6 +1866,8 @@ def op_label0(op):
     k = op["op"]
     if k == "convert":
         return "convert"
+    if k == "assign_sub":
+        return "las[sub field] = values where an extra dimension has the same name"
     if k == "caller":
         return "the caller changes what it passed earlier (" + op["what"] + ")"
     if k == "edit_vlrs":
@@ -1723,7 +1888,7 @@ def op_label0(op):
     return k + (" bad " + op["bad"] if op.get("bad") else "")
 
 
-COMPONENTS = ["outcome", "point format", "record bytes", "dimension values", "vlrs", "header point count"]
+COMPONENTS = ["outcome", "point format", "record bytes", "dimension values", "vlrs", "header point count", "dimension list of the point format"]
 
 
 def compare(h, snaps, mline):
@@ -1824,6 +1989,14 @@ def check_state(shadow, sn, fmt, reg=None):
     remove / conversion has rebuilt the VLR yet); "absent": that file had no extra-bytes VLR"""
     if sn["fmt"] != fmt:
         return ("point format id", f"point format {sn['fmt']}, expected {fmt}")
+    if "std_dims" in sn:
+        # the standard dimensions of the point format are those of the format id, whatever the extra dimensions are called
+        want = [tuple(x) for x in name_tables()["dims"][fmt]]
+        for which, got_std in zip(("las.point_format", "las.header.point_format"), sn["std_dims"]):
+            if [tuple(x) for x in got_std] != want:
+                lost = [n for n, _ in want if n not in [g[0] for g in got_std]]
+                return ("standard dimensions of the point format changed", f"{which} of format {fmt} has the standard dimensions {[g[0] for g in got_std]}"
+                        + (f": {lost} lost" if lost else f", PointFormat({fmt}) has {[n for n, _ in want]}"))
     std = std_dtype(fmt).itemsize
     exp_size = std + sum(type_size(tuple(d["type"])) for d in shadow)
     if not (sn["itemsize"] == sn["pf_size"] == sn["hdr_pf_size"] == exp_size):
@@ -1832,6 +2005,15 @@ def check_state(shadow, sn, fmt, reg=None):
         return ("record length", "array bytes")
     if not sn["same_format"]:
         return ("header and record formats differ", "las.header.point_format and las.point_format describe different dimensions")
+    if "std_dims" in sn:
+        want = [tuple(x) for x in name_tables()["dims"][fmt]]
+        exp_names = [n for n, _ in want] + [bytes.fromhex(d["name"]).decode() for d in shadow]
+        if sn["dim_names"] != exp_names:
+            return ("dimension list of the point format", f"point_format.dimension_names is {sn['dim_names']}, expected the standard dimensions then {exp_names[len(want):]}")
+        for n, ok in sn.get("resolved", {}).items():
+            if ok is not True:
+                return ("las[name] does not give the standard dimension where an extra dimension has the same name",
+                        f"las[{n!r}] " + ("raises " + ok if isinstance(ok, str) else "differs from the bits of the standard dimension in the record"))
     got = [(d["name"], d["type"], None if d["scale"] is None else [d["scale"][0], d["scale"][1]], d["desc"]) for d in sn["extras"]]
     exp = [(bytes.fromhex(d["name"]), tuple(d["type"]), d["scale"], bytes.fromhex(d["desc"])) for d in shadow]
     if got != exp:
@@ -1949,7 +2131,7 @@ def extra_fields(sn, shadow):
 
 
 VALUE_KEYS = ("extras", "names", "ftypes", "bytes", "vlrs", "npts")
-IN_PLACE = ("assign", "assign_std", "set_points")      # operations that write into the array the LasData holds
+IN_PLACE = ("assign", "assign_std", "assign_sub", "set_points")      # operations that write into the array the LasData holds
 
 
 def non_eb(sn):
@@ -2014,6 +2196,9 @@ def oracle(h, snaps):
         elif k == "assign":
             named = {bytes.fromhex(op["name"]).decode()}
             new_shadow = shadow
+        elif k == "assign_sub":
+            named = {op["composed"]}        # the field of the record that holds the sub field; the extra dimension of that name is not named
+            new_shadow = shadow
         elif k == "convert":
             new_shadow, new_reg, new_fmt = shadow, None, op["fmt"]
         elif k == "reread":
@@ -2023,6 +2208,10 @@ def oracle(h, snaps):
         else:
             new_shadow = shadow
         label = k + (" bad name " + op["bad"] if op.get("bad") else "")
+        if k in ("add", "remove", "assign") and not expect_err and {name_class(fmt, n) for n in named} - {None}:
+            label += " (a name laspy knows: " + ", ".join(sorted({name_class(fmt, n) for n in named} - {None})) + ")"
+        if k == "assign_sub":
+            label = "las[sub field] = values where an extra dimension has the same name"
         if k in ("caller", "edit_vlrs") or (k == "add" and (op.get("pass") or {}).get("reuse")):
             label = op_label0(op)
         if k == "set_points":
@@ -2050,7 +2239,7 @@ def oracle(h, snaps):
                 out.append((f"a record with these extra dimensions could not be made ({op['source']})", i, f"outcome {status}"))
             elif status != "err:ELaspy":
                 out.append((f"record of a different format ({op['mismatch']}) not refused with LaspyException", i, f"outcome {status}"))
-            changed = [c for c in ("extras", "names", "bytes", "vlrs", "itemsize", "pf_size", "hdr_pf_size", "npts") if sn[c] != prev[c]]
+            changed = [c for c in ("extras", "names", "bytes", "vlrs", "itemsize", "pf_size", "hdr_pf_size", "npts", "dim_names", "std_dims") if sn.get(c) != prev.get(c)]
             if changed:
                 out.append((f"refused whole-record assignment ({op['mismatch']}) not atomic", i, f"after the refusal these changed: {changed}"))
         elif expect_err and k == "fork":
@@ -2061,7 +2250,7 @@ def oracle(h, snaps):
         elif expect_err:
             if status != "err:ELaspy":
                 out.append((f"remove of a {op.get('bad', 'bad')} name not refused with LaspyException", i, f"outcome {status}"))
-            changed = [c for c in ("extras", "names", "bytes", "vlrs", "itemsize", "pf_size", "hdr_pf_size") if sn[c] != prev[c]]
+            changed = [c for c in ("extras", "names", "bytes", "vlrs", "itemsize", "pf_size", "hdr_pf_size", "dim_names", "std_dims") if sn.get(c) != prev.get(c)]
             if changed:
                 out.append((f"remove of a {op.get('bad', 'bad')} name not atomic", i, f"after the refused removal these changed: {changed}"))
         else:
@@ -2102,7 +2291,14 @@ def oracle(h, snaps):
                 if sn["fields"][n][2] != prev["fields"][n][2]:
                     out.append((f"{label}: other dimension changed", i, f"dimension {n!r}: {prev['fields'][n][2][:24].hex()} -> {sn['fields'][n][2][:24].hex()}"))
                     break
-            if k in ("add", "remove", "assign", "assign_std", "caller", "edit_vlrs") and status == "ok" and sn["npts"] != prev["npts"]:
+            if k == "assign_sub" and status == "ok":
+                size = std_dtype(fmt).itemsize
+                got_std = b"".join(sn["bytes"][j * sn["itemsize"]:j * sn["itemsize"] + size] for j in range(sn["npts"]))
+                if sn["npts"] == prev["npts"] and got_std != sub_assigned_std(prev, op):
+                    out.append(("assignment to a standard sub field (an extra dimension has the same name) does not read back", i,
+                                f"las[{bytes.fromhex(op['name']).decode()!r}] = {op['vals'][:4]}: field {op['composed']!r} "
+                                f"{prev['fields'][op['composed']][2][:8].hex()} -> {sn['fields'][op['composed']][2][:8].hex()}"))
+            if k in ("add", "remove", "assign", "assign_std", "assign_sub", "caller", "edit_vlrs") and status == "ok" and sn["npts"] != prev["npts"]:
                 out.append((f"{label} changed the number of points", i, f"{prev['npts']} points -> {sn['npts']}"
                             + (f" (the header counted {prev['hdr_count']})" if prev.get("hdr_count") != prev["npts"] else "")))
             if k in ("add", "remove") and status == "ok" and non_eb(sn) != non_eb(prev):
@@ -2330,6 +2526,68 @@ def impl_decode(b):
     return f"ok {common.hexb(p.name.encode())}~{ttok(t)}~{sc}~{common.hexb(p.description.encode())}"
 
 
+def spec_decode(b):
+    """what a 192-byte descriptor says by the specification alone (ASPRS LAS 1.4 R15 tables 24 / 25), in impl_decode's notation; None
+    where the specification is silent or laspy's choice is not this property's (unknown data type, zero bytes): data type 1..30 =
+    element type and count, options bit 3 = the scale is relevant (else 1.0), bit 4 = the offset is relevant (else 0.0), each on its
+    own; data type 0 = `options` opaque bytes; texts end at the first NUL"""
+    t, opt = b[2], b[3]
+    name, desc = b[4:36].split(b"\0")[0], b[160:192].split(b"\0")[0]
+    try:
+        name.decode(), desc.decode()
+    except UnicodeDecodeError:
+        return None
+    if t == 0:
+        if opt == 0:
+            return None
+        tok, sc = (("o", opt) if opt > 3 else ("s", {1: 1, 2: 11, 3: 21}[opt])), "-"
+    elif 1 <= t <= 30:
+        n = (t - 1) // 10 + 1
+        tok = ("s", t)
+        hs, ho = bool(opt & 8), bool(opt & 16)
+        if hs or ho:
+            stored_s, stored_o = struct.unpack("<3Q", b[112:136]), struct.unpack("<3Q", b[136:160])
+            sc = (common.zl(list(stored_s[:n]) if hs else [lasio.f64bits(1.0)] * n) + "/"
+                  + common.zl(list(stored_o[:n]) if ho else [lasio.f64bits(0.0)] * n))
+        else:
+            sc = "-"
+    else:
+        return None
+    return f"ok {common.hexb(name)}~{ttok(tok)}~{sc}~{common.hexb(desc)}"
+
+
+def spec_descriptors(rng, n):
+    """descriptors the specification decides: every documented type x no flag / scale only / offset only / both (+ other bits of the
+    options byte), opaque sizes, then random ones"""
+    out = []
+    for t in range(1, 31):
+        for opt in (0, 8, 16, 24, 8 | 1, 16 | 4, 24 | 7, 7):
+            b = bytearray(rand_descriptor(rng))
+            b[2], b[3] = t, opt
+            out.append(bytes(b))
+    for size in OPAQUE_SIZES + [1, 2, 3, 8 | 1, 16, 24]:
+        b = bytearray(rand_descriptor(rng))
+        b[2], b[3] = 0, size
+        out.append(bytes(b))
+    out.extend(rand_descriptor(rng) for _ in range(n))
+    return out
+
+
+def judge_descriptor(b):
+    """(kind, text) if laspy reads the descriptor otherwise than the specification says; None if it agrees or the specification is silent"""
+    want = spec_decode(b)
+    if want is None:
+        return None
+    got = impl_decode(b)
+    if got == want:
+        return None
+    w, g = want.split("~"), got.split("~")
+    what = ("fails" if not got.startswith("ok ") else "name" if g[0] != w[0] else "element type" if g[1] != w[1]
+            else "scale / offset flags" if g[2] != w[2] else "description")
+    return ("descriptor read from a VLR: " + what,
+            f"data type {b[2]}, options {b[3]:#04x}: laspy reads scales/offsets {g[2] if len(g) > 2 else got}, the specification says {w[2]} (type {w[1]})")
+
+
 # ---------------------------------------------------------------------------------
 # entry points
 # ---------------------------------------------------------------------------------
@@ -2437,6 +2695,136 @@ def systematic(ctx, reserved):
     hs.extend(systematic3(ctx, reserved))
     hs.extend(systematic4(ctx, reserved))
     hs.extend(systematic5(ctx, reserved))
+    hs.extend(systematic6(ctx, reserved))
+    return hs
+
+
+def systematic6(ctx, reserved):
+    """round 6 — every name laspy knows that the record of the format has no field of (sub fields of the format, sub fields and
+    fields of other formats, old laspy names, coordinates) x every point format: the extra dimension of that name next to two
+    ordinary ones through add, assignment (through the record's array), assignment of the standard bytes and of the standard sub
+    field through las[name], round trip, removal, re-addition with another type, conversion to a format that allows the name, a
+    whole-record assignment, and — once the name is only the standard dimension's — its refused removal"""
+    rng = ctx.rng
+    hs = []
+    t = name_tables()
+
+    def dims_with(shadow, nm, pos, scaled, typ=None):
+        used = {bytes.fromhex(d["name"]).decode() for d in shadow} | {nm}
+        ds = []
+        for i in range(3):
+            if i == pos:
+                d = rand_dim(rng, used, reserved, name=nm, scaled=scaled, t=typ)
+            else:
+                d = rand_dim(rng, used, reserved)
+                used.add(bytes.fromhex(d["name"]).decode())
+            ds.append(d)
+        return ds
+
+    def by_name(shadow, nm):
+        return [d for d in shadow if bytes.fromhex(d["name"]).decode() == nm]
+
+    j = 0
+    for fmt in range(11):
+        pool = clash_pool(fmt)
+        subs = [n for n in pool if n in t["sub"][fmt]]
+        others = [n for n in pool if n not in t["sub"][fmt]]
+        # every sub field of the format; of the other names a rotating selection in the quick tier, all of them in the thorough one
+        if not ctx.n(0, 1):
+            subs = [subs[(fmt + (3 if len(subs) % 3 else 2) * i) % len(subs)] for i in range(5)]        # quick tier: 5 of the 8..9 sub fields, rotating over the formats
+            others = [others[(5 * fmt + 3 * i) % len(others)] for i in range(2)]
+        picked = subs + others
+        for nm in picked:
+            j += 1
+            is_sub = nm in t["sub"][fmt]
+            pos = j % 3
+            scaled = bool(j % 2)
+
+            def add3(shadow, cur, nm=nm, pos=pos, scaled=scaled, j=j):
+                ds = dims_with(shadow, nm, pos, scaled, typ=("s", 1 + (7 * j) % 30))
+                return {"op": "add", "dims": ds, "single": False} if j % 4 else None
+
+            def add_one_by_one(k_):
+                def f(shadow, cur, nm=nm, pos=pos, scaled=scaled, j=j):
+                    if j % 4:
+                        return None
+                    used = {bytes.fromhex(d["name"]).decode() for d in shadow} | {nm}
+                    d = rand_dim(rng, used, reserved, name=nm, scaled=scaled, t=("s", 1 + (7 * j) % 30)) if k_ == pos and not by_name(shadow, nm) else rand_dim(rng, used, reserved)
+                    return {"op": "add", "dims": [d], "single": True}
+                return f
+
+            def asg_named(shadow, cur, nm=nm):
+                return assign_op(rng, by_name(shadow, nm)[0], cur) if by_name(shadow, nm) else None
+
+            def asg_other(shadow, cur, nm=nm):
+                o = [d for d in shadow if bytes.fromhex(d["name"]).decode() != nm]
+                return assign_op(rng, o[0], cur) if o else None
+
+            def std_random(shadow, cur):
+                return lambda sh, c, curfmt, curver, reg: {"op": "assign_std", "size": std_dtype(curfmt).itemsize, "raw": hx(rand_std(rng, curfmt, c))}
+
+            def std_safe(shadow, cur):
+                return lambda sh, c, curfmt, curver, reg: {"op": "assign_std", "size": std_dtype(curfmt).itemsize, "safe": True,
+                                                           "raw": hx(bytes(rng.choice(SAFE_STD) for _ in range(std_dtype(curfmt).itemsize * c)))}
+
+            def asg_sub(shadow, cur, nm=nm):
+                return lambda sh, c, curfmt, curver, reg: assign_sub_op(rng, curfmt, nm, c) if nm in t["sub"][curfmt] and by_name(sh, nm) else None
+
+            def rt(via):
+                return lambda s_, c: {"op": "roundtrip", "via": via}
+
+            def rem_named(single):
+                def f(shadow, cur, nm=nm):
+                    if not by_name(shadow, nm):
+                        return None
+                    return {"op": "remove", "names": [hx(nm.encode())], "single": single, "as": "tuple"}
+                return f
+
+            def rem_named_and_other(shadow, cur, nm=nm):
+                o = [d["name"] for d in shadow if bytes.fromhex(d["name"]).decode() != nm]
+                if not by_name(shadow, nm):
+                    return None
+                names = ([o[-1]] if o else []) + [hx(nm.encode())]
+                return {"op": "remove", "names": names, "single": False, "as": "list"}
+
+            def rem_refused(shadow, cur, nm=nm):
+                # the name is now only a standard dimension's (or nobody's): refused, nothing changes
+                def g(sh, c, curfmt, curver, reg):
+                    if by_name(sh, nm):
+                        return None
+                    kind = "standard" if (nm in t["sub"][curfmt] or nm in t["rec"][curfmt]) else "unknown"
+                    return {"op": "remove", "names": [d["name"] for d in sh[:1]] + [hx(nm.encode())], "single": False, "as": "list", "bad": kind}
+                return g
+
+            def readd(shadow, cur, nm=nm, j=j):
+                used = {bytes.fromhex(d["name"]).decode() for d in shadow}
+                if nm in used:
+                    return None
+                return {"op": "add", "dims": [rand_dim(rng, used, reserved, name=nm, t=("s", 1 + (11 * j) % 30), scaled=not bool(j % 2))], "single": True}
+
+            def conv(shadow, cur, nm=nm, j=j):
+                def g(sh, c, curfmt, curver, reg):
+                    ok = [g_ for g_ in convert_targets(sh) if g_ != curfmt]
+                    # towards a format where the name is a sub field if there is one (the other way round for a sub field of this format)
+                    pref = [g_ for g_ in ok if (nm in t["sub"][g_]) != (nm in t["sub"][curfmt])]
+                    cand = pref if pref and j % 2 else ok
+                    return {"op": "convert", "fmt": cand[j % len(cand)] if cand else curfmt, "version": None}
+                return g
+
+            def setp(shadow, cur, j=j):
+                return lambda sh, c, curfmt, curver, reg: rand_set_points(rng, curfmt, sh, c, reserved, source=["other", "copy", "packed", "reread"][j % 4])
+
+            plan = [add3, add_one_by_one(0), add_one_by_one(1), add_one_by_one(2), asg_named, asg_other, std_random, asg_sub, rt("writer" if j % 2 else "write"),
+                    asg_named, rem_named(bool(j % 2)) if j % 3 else rem_named_and_other, rem_refused, rt("write"), readd, asg_named, asg_sub,
+                    std_safe, conv, asg_named, setp, rem_named(True), rem_refused]
+            hs.append(gen_history(rng, reserved, fmt=fmt, steps=len(plan), npts=[2, 3, 1, 5][j % 4], plan=plan, init=0,
+                                  build=BUILDS[j % len(BUILDS)], sibling=False))
+            # the name from the start: a PointFormat that already carries it (create / header made from the format)
+            if is_sub and j % 2:
+                def rem0(shadow, cur, nm=nm):
+                    return {"op": "remove", "names": [hx(nm.encode())], "single": True} if by_name(shadow, nm) else None
+                hs.append(gen_history(rng, reserved, fmt=fmt, steps=4, npts=2, plan=[asg_named, asg_sub, rem0, rem_refused], init=0,
+                                      init_dims=dims_with([], nm, pos, scaled), build=["header_fmt", "create_fmt"][j % 4 // 2], sibling=False))
     return hs
 
 
@@ -2887,6 +3275,19 @@ def correspond(ctx):
         "add, assign, remove, caller, round trip; 6 re-use patterns; 7 stale-count routes (bigger / smaller / zero) x 5 follow-ups; every "
         "chunk of a 10-point file wrapped, extended, written; 10 flavours x their installs (58) x {add, remove one, remove all}; 22 names "
         "of standard dimensions of other formats. "
+        "Round 6: 12% of the added dimensions are called like something laspy knows and the record of the format has no field of (half of "
+        "them a SUB FIELD of the current format: return_number, synthetic, withheld, overlap ...; else a standard dimension of another "
+        "format, an old laspy name, a coordinate); their values are assigned through the record's array, and las[name] = values (2% of the "
+        "steps when there is such a dimension) assigns the STANDARD sub field (the extra dimension must keep its bytes; the model gets the "
+        "standard block with the bits replaced); conversions go to formats whose record has no field of an extra dimension's name. "
+        "Systematic: 5 sub fields of every format (rotating) + 2 other known names per format (all 8..9 + ~25 in the thorough tier) through add 3 (at "
+        "once / one by one; the name first, in the middle, last; 30 types, scaled or not), assign, assign other, standard bytes, "
+        "las[name] = .., round trip, assign, remove (single / with another), refused removal of the now standard-only name, round trip, "
+        "re-add with another type, assign, las[name] = .., convert (towards a format where the name changes its role), assign, "
+        "whole-record assignment, remove, refused removal; the name carried by the PointFormat from the start (create / header). The "
+        "model's dimension list (dim_names: standard dimensions of the format id, then the extra ones) is compared with "
+        "point_format.dimension_names after every step; rec_names / sub_names / std_dim_names of the model vs laspy's tables per format. "
+        "Search also: 240 + 18 systematic and 300 (3000) random 192-byte descriptors read by laspy vs the specification's reading. "
         "After the construction and after every step point format, VLR payloads, all record "
         "bytes and the raw values of each extra dimension are compared with the model (the standard block a conversion produces is taken "
         "from the implementation: C12). non-trivial = at least one successful add or initial dimension; distinct by the "
@@ -2936,11 +3337,28 @@ def correspond(ctx):
             ctx.count("outcome:" + sn[0])
             for d in o.get("dims", []):
                 ctx.count("type:" + ("opaque" if d["type"][0] == "o" else "scaled" if d["scale"] else "plain"))
+                if o["op"] == "add" and name_class(sn[1]["fmt"], bytes.fromhex(d["name"]).decode()):
+                    ctx.count("added dimension called like a " + name_class(sn[1]["fmt"], bytes.fromhex(d["name"]).decode()))
+            if o["op"] == "remove" and sn[0] == "ok" and any(name_class(sn[1]["fmt"], bytes.fromhex(n).decode()) == "sub field of the format" for n in o["names"]):
+                ctx.count("removed dimension called like a sub field of the format")
         ctx.count("final extra dims: " + str(min(len(snaps[-1][1]["extras"]), 4)) + ("+" if len(snaps[-1][1]["extras"]) >= 4 else ""))
         if any(d["name"] == UNREG_NAME for d in snaps[-1][1]["extras"]):
             ctx.count("final state has the reader's ExtraBytes dimension")
         for step, opk, comp, a, b in compare(h, snaps, mline):
             dis.append({"kind": f"{opk}: {comp}", "input": {"history": h, "step": step}, "model": a, "impl": b})
+    # the name tables of the model (Gen/GenDims.v through rec_names / sub_names / std_dim_names) against the running laspy
+    tabs = name_tables()
+    lines = [f"{c} {f}" for f in range(11) for c in ("rec_names", "sub_names", "std_dim_names")]
+    outs = common.run_model(lines, name="c13")
+    for ln, mo in zip(lines, outs):
+        c, f = ln.split(" ")
+        f = int(f)
+        want = {"rec_names": tabs["rec"][f], "sub_names": list(tabs["sub"][f]), "std_dim_names": [n for n, _ in tabs["dims"][f]]}[c]
+        im = ",".join(common.hexb(n.encode()) for n in want)
+        ctx.traces += 1
+        ctx.case(("names", c, f), nontrivial=True)
+        if (sorted(im.split(",")) != sorted(mo.split(","))) if c == "sub_names" else (im != mo):
+            dis.append({"kind": "name table: " + c, "input": {"format": f}, "model": mo[:300], "impl": im[:300]})
     # descriptor decoding
     descs = [rand_descriptor(ctx.rng) for _ in range(ctx.n(1500, 15000))]
     outs = common.run_model(["eb_dec " + common.hexb(b) for b in descs], name="c13")
@@ -2969,11 +3387,24 @@ def search(ctx, seeds):
             if kind not in seen:
                 seen.add(kind)
                 failing.append({"kind": kind, "input": {"history": h, "step": step, "ops": describe(h)}, "observed": text})
+    # the reader's side of (I3): a descriptor is read as the specification says (scale flag and offset flag each on its own)
+    descs = [bytes.fromhex(s_["input"]["descriptor"]) for s_ in seeds if s_.get("input", {}).get("descriptor")]
+    for b in descs + spec_descriptors(ctx.rng, ctx.n(300, 3000)):
+        bad = judge_descriptor(b)
+        ctx.count("descriptor judged by the specification" if spec_decode(b) is not None else "descriptor the specification leaves open")
+        if bad and bad[0] not in seen:
+            seen.add(bad[0])
+            failing.append({"kind": bad[0], "input": {"descriptor": b.hex()}, "observed": bad[1]})
     return failing[:24]
 
 
 def replay(ctx, data):
     h = data.get("failing_input", {}).get("input", {}).get("history")
+    desc = data.get("failing_input", {}).get("input", {}).get("descriptor")
+    if desc and not h:
+        bad = judge_descriptor(bytes.fromhex(desc))
+        print(f"REPRODUCED: {bad[0]}: {bad[1]}" if bad else "not reproduced")
+        return 1 if bad else 0
     if not h:
         print("nothing to replay")
         return 0
